@@ -279,7 +279,7 @@ func builtinIntrinsics() map[string]Intrinsic {
 		"(*sync.Pool).Put", "runtime.KeepAlive", "runtime.Gosched", "runtime.SetFinalizer", "(*sync.Cond).Broadcast", "(*sync.Cond).Signal"} {
 		I[n] = nop
 	}
-	I["(*sync.Mutex).TryLock"] = func(m *Machine, fn *ssa.Function, a []Value) Value { return m.ctx.True }
+	concIntrinsics(I)
 	// sync.Pool: LIFO store (maximal reuse: the case in which stale state of a recycled object matters)
 	I["(*sync.Pool).Get"] = func(m *Machine, fn *ssa.Function, a []Value) Value {
 		p := m.ptrOf(a[0])
@@ -378,21 +378,24 @@ func builtinIntrinsics() map[string]Intrinsic {
 	}
 
 	// ---- sync/atomic (sequential semantics) ----
-	ld := func(m *Machine, fn *ssa.Function, a []Value) Value { return copyVal(*m.ptrOf(a[0])) }
-	stf := func(m *Machine, fn *ssa.Function, a []Value) Value { storeInto(m.ptrOf(a[0]), a[1]); return nil }
+	ld := func(m *Machine, fn *ssa.Function, a []Value) Value { m.yield(); return copyVal(*m.ptrOf(a[0])) }
+	stf := func(m *Machine, fn *ssa.Function, a []Value) Value { m.yield(); storeInto(m.ptrOf(a[0]), a[1]); return nil }
 	add := func(m *Machine, fn *ssa.Function, a []Value) Value {
+		m.yield()
 		p := m.ptrOf(a[0])
 		n := m.ctx.Add((*p).(*smt.Term), term(a[1]))
 		*p = n
 		return n
 	}
 	swap := func(m *Machine, fn *ssa.Function, a []Value) Value {
+		m.yield()
 		p := m.ptrOf(a[0])
 		old := copyVal(*p)
 		storeInto(p, a[1])
 		return old
 	}
 	cas := func(m *Machine, fn *ssa.Function, a []Value) Value {
+		m.yield()
 		p := m.ptrOf(a[0])
 		if m.branch(m.equal(*p, a[1])) {
 			storeInto(p, a[2])
